@@ -192,7 +192,7 @@ func DrawFront(t *rapid.T, o FrontOpts) ([]*ClientPlan, []*ClientMeta) {
 			var ids []uint32
 			fillCache := o.FillCanonCachePct > 0 && drawBool(t, "fillcache", o.FillCanonCachePct)
 			for ri := 0; ri < nreq; ri++ {
-				r := ReqSpec{Tag: fmt.Sprintf("c%d-r%d", ci, ri), Method: "GET", Path: fmt.Sprintf("/p%d", ri), Host: fmt.Sprintf("h%d.verif.test", ci)}
+				r := ReqSpec{Tag: fmt.Sprintf("c%d-r%d", ci, ri), Method: "GET", Path: fmt.Sprintf("/p%d", ri), Host: drawReqHost(t, ci)}
 				if o.HeaderGen != nil {
 					r.Header = o.HeaderGen(t, "h2", ci, ri)
 				}
@@ -219,7 +219,7 @@ func DrawFront(t *rapid.T, o FrontOpts) ([]*ClientPlan, []*ClientMeta) {
 			cp.Steps = append(cp.Steps, Step{Kind: "h2await", Streams: ids})
 		} else {
 			for ri := 0; ri < nreq; ri++ {
-				r := ReqSpec{Tag: fmt.Sprintf("c%d-r%d", ci, ri), Method: "GET", Path: fmt.Sprintf("/p%d", ri), Host: fmt.Sprintf("h%d.verif.test", ci)}
+				r := ReqSpec{Tag: fmt.Sprintf("c%d-r%d", ci, ri), Method: "GET", Path: fmt.Sprintf("/p%d", ri), Host: drawReqHost(t, ci)}
 				if o.HeaderGen != nil {
 					r.Header = o.HeaderGen(t, "h1", ci, ri)
 				}
@@ -254,4 +254,28 @@ func RebuildFrontSteps(cp *ClientPlan, m *ClientMeta) {
 		}
 	}
 	cp.Steps = append(steps, Step{Kind: "close"})
+}
+
+// drawReqHost: the host a client addresses - mostly a plain name; sometimes with the scheme's
+// default port spelt out, another port, or an IPv6 literal (wave 12, C09-s: a proxy that
+// "normalises" what the client addressed)
+func drawReqHost(t *rapid.T, ci int) string {
+	h := fmt.Sprintf("h%d.verif.test", ci)
+	if !drawBool(t, "hostform", 30) {
+		return h
+	}
+	switch rapid.IntRange(0, 5).Draw(t, "hostkind") {
+	case 0:
+		return h + ":443"
+	case 1:
+		return h + ":8443"
+	case 2:
+		return fmt.Sprintf("[2001:db8::%x]:443", ci+1)
+	case 3:
+		return fmt.Sprintf("[2001:db8::%x]", ci+1)
+	case 4:
+		return fmt.Sprintf("H%d.Verif.TEST:443", ci)
+	default:
+		return fmt.Sprintf("192.0.2.%d:443", ci+1)
+	}
 }
